@@ -4,6 +4,7 @@ Each link of the chain 'constant data => zero gradients => cell values at the fa
 fluxes => zero residual => unchanged state' is decided: GRAD-CONST / RECON-CONST (STN),
 GVN-CONSIST (C02), RESID-ZERO (STN), PERIODIC-CLOSE, BC-FIXPOINT (GVN), NOZZLE-REST (GVN),
 INTEG-FIX (AFF), FD-STEP-ZERO (known finding)."""
+from fractions import Fraction
 from ..disc1d import Disc1D, RECON_CLASSES, phi_axioms, N
 from ..interp import Vec, ParamDict
 from ..models import Ctx, MODELS, flat
@@ -63,6 +64,64 @@ def resid_zero(check, proj):
     f = proj.func("modeldisc.fvm1d.calc_res")
     ok = all(v.is_zero() for l, h, v in r.segs)
     check.record("RESID-ZERO", f.qualname, ok, "equal face fluxes give a zero residual in every cell, on any mesh", f.loc(), key="zero")
+
+
+def periodic_const(check, proj):
+    """with the same value c on every interior face side, the periodic closure must put c on the
+    two open ends too (whatever pair it copies)"""
+    D = Disc1D(proj, periodic=True)
+    A = D.alg
+    c = A.sym("Wconst")
+    hole = A.sym("UNSET")
+    D.so.attrs["pL"] = [SArr(N + 1, [(0, 1, hole), (1, N + 1, c)])]
+    D.so.attrs["pR"] = [SArr(N + 1, [(0, N, c), (N, N + 1, hole)])]
+    D.fvm("calc_bc")
+    f = proj.func("modeldisc.fvm1d.calc_bc")
+    ok = True
+    for side in ("pL", "pR"):
+        arr = D.so.attrs[side][0]
+        for l, h, v in arr.segs:
+            if not A.equal(A.lift(v), c):
+                ok = False
+                check.violation("PERIODIC-CLOSE", f.qualname, "with constant data the periodic closure leaves %s[%r:%r] = %s" % (side, l, h, A.show(A.lift(v), 60)), f.loc(), key="const-" + side)
+    if ok:
+        check.ok("PERIODIC-CLOSE", f.qualname, "with constant face states the periodic closure fills both open ends with the same constant", f.loc())
+
+
+def integ_fix(check, proj):
+    """a zero residual leaves the state unchanged: after one step (and a second one, for the
+    multistep typestate) the state is Q plus terms that all vanish with the residual -- residuals
+    K, solved increments X of a system whose right-hand side vanishes, stored increments L of a
+    run that started at the fixed point"""
+    from ..affine import run_step, NEQ
+    from .c01 import integrator_classes
+    for c in integrator_classes(proj):
+        q = c.qualname
+        stepf = proj.resolve(c, "step")
+        try:
+            ai, outs = run_step(proj, c, 2)
+        except AnalysisError as e:
+            check.undecided("INTEG-FIX", q, "abstract interpretation failed: %s" % e, stepf.loc())
+            continue
+        bad = None
+        for o in outs:
+            f = o["field"]
+            for e in range(NEQ):
+                form = dict(f.data[e].form)
+                if form.pop(("Q0", e), None) != {0: Fraction(1)}:
+                    bad = "state after the step is %s (initial state not carried with weight 1)" % f.data[e]
+                foreign = [b for b in form if b[0] not in ("K", "X", "L")]
+                if foreign:
+                    bad = "state after the step contains %s, which does not vanish with the residual" % foreign
+            for (mat, rhs) in o["solves"]:
+                for e in range(NEQ):
+                    foreign = [b for b in rhs[e].form if b[0] not in ("K", "L")]
+                    if foreign:
+                        bad = "the right-hand side of the linear system contains %s, which does not vanish with the residual" % foreign
+        if bad:
+            check.violation("INTEG-FIX", q, bad, stepf.loc(), key="fix")
+        else:
+            check.ok("INTEG-FIX", q, "a zero residual leaves the state unchanged, with or without local time steps: the update is Q + terms linear in residuals / solved or stored increments", stepf.loc())
 
 
 def bc_fixpoint(check, proj):
@@ -182,24 +241,23 @@ def body(check):
     check.assume("'to round-off' (e.g. rounding of f*(sR-sL)/(sR-sL)) is not decided")
     check.guarded("RECON-CONST", "xnum", lambda: recon_const(check, proj))
     check.guarded("RESID-ZERO", "modeldisc.fvm1d.calc_res", lambda: resid_zero(check, proj))
-    check.guarded("PERIODIC-CLOSE", "modeldisc.fvm1d.calc_bc", lambda: c01.periodic_close(check, proj))
-    for key in c02.KEYS:
-        results = {}
-        for f, names in flux_kernels(proj, key):
-            check.guarded("GVN-CONSIST", f.qualname, lambda: c02.consistency(check, key, f, names, results), f.loc())
+    check.guarded("PERIODIC-CLOSE", "modeldisc.fvm1d.calc_bc", lambda: periodic_const(check, proj))
+    # equal states at every face give equal fluxes as soon as the flux is a function of the two face
+    # states only (consistency with the physical flux is sufficient, not necessary: C02 owns it)
+    check.guarded("POINTWISE", "numflux", lambda: c01.pointwise(check, proj))
     check.guarded("BC-FIXPOINT", "euler", lambda: bc_fixpoint(check, proj))
     check.guarded("BC-FIXPOINT", "dirichlet", lambda: c16.bc_def_other(check, proj))
     check.guarded("NOZZLE-REST", "euler.nozzle", lambda: nozzle_rest(check, proj))
-    n0 = len(check.obs)
-    check.guarded("INTEG-FIX", "integration", lambda: c01.update_linear(check, proj))
-    for o in check.obs[n0:]:
-        if o.rule == "UPDATE-LINEAR":
-            o.rule = "INTEG-FIX"
-            if o.status == "ok":
-                o.detail = "a zero residual leaves the state unchanged, with or without local time steps: " + o.detail
+    check.guarded("INTEG-FIX", "integration", lambda: integ_fix(check, proj))
     # the finite-difference Jacobian at a state with an identically vanishing component
     check.guarded("FD-STEP-ZERO", "calc_jacobian", lambda: c06.fd_step_zero(check, proj))
     from . import c15
-    if check.guarded("LAYOUT-AGREE", "modeldisc.fvm2dcart", lambda: c15.layout_agree(check)):
+    n0 = len(check.obs)
+    lay = check.guarded("LAYOUT-AGREE", "modeldisc.fvm2dcart", lambda: c15.layout_agree(check))
+    for o in check.obs[n0:]:
+        if o.rule == "LAYOUT-AGREE" and o.status == "violation":
+            # a mis-indexed 2D slice moves data between entries; constant data may survive it: not decided here
+            o.status = "undecided"
+    if lay:
         check.guarded("RECON-CONST", "xnum.extrapol2d*", lambda: c15.const_2d(check))
         check.guarded("BC-2D-SITE", "modeldisc.fvm2dcart.calc_bc", lambda: c15.bc_sites(check))
